@@ -617,7 +617,10 @@ func (tb *TB) Results(fn *ssa.Function, params, free []*Term, depth int) []*Term
 	if fn == nil || fn.Blocks == nil {
 		return nil
 	}
-	e := &Env{Fn: fn, Params: params, Free: free, depth: depth}
+	var e *Env
+	if params != nil || free != nil {
+		e = &Env{Fn: fn, Params: params, Free: free, depth: depth}
+	}
 	n := fn.Signature.Results().Len()
 	alts := make([][]*Term, n)
 	for _, b := range fn.Blocks {
